@@ -69,6 +69,12 @@ def run(tier):
     fb = [b.replace('"default_seed":true}', '"default_seed":true,"expect":"any"}') for b in fb]
     fres = replay.replay(exe, [fpro] + fb, shards=16, timeout_s=120)
     c.add_replay(fres, "repository worlds: interleaved histories vs references taken in isolated processes")
+    from lib import gen
+    gb = gen.behaviours(c, tier, "purity")
+    gres = replay.replay(exe, gb, shards=16, timeout_s=300)
+    gres.n = len(gb)
+    c.add_replay(gres, "documents of the world-file grammar: twin worlds bitwise, every block of a batched reply vs the property asked alone, reversed list")
+    c.coverage["grammar_documents"] = len(gb)
     c.sample(fb[-1][:2000] + "...")
     c.sample(lists[len(lists) // 2]); c.sample(hb[len(hb) // 2])
     c.coverage["exhaustive"] = quick
@@ -77,10 +83,12 @@ def run(tier):
                           "compared block by block, bitwise, with stand-alone references taken on a separate pristine world; plus "
                           "life-cycle histories over two handles (create/release/batched/single-entry-point queries); plus the repository's own "
                           "tests/gwb-dat worlds without random models as opaque files: all files of a chunk alive at once and queried round-robin, and "
-                          "simulated histories over three handles, compared bitwise with references computed in one isolated process per file. "
+                          "simulated histories over three handles, compared bitwise with references computed in one isolated process per file; plus simulated "
+                          "documents of the world-file grammar Gen.tla (every feature type, geometry, depth kind, deterministic model and operation), each "
+                          "built twice and asked an 11-property list at 1106 points: twin bitwise, every block vs the property asked alone, reversed list. "
                           "non-trivial = behaviours with at least one feature-covered target (all of them); distinct = distinct "
                           "TLC states / histories")
-    c.coverage["distinct_nontrivial"] = len(set(lists)) + len(set(hb)) + len(set(fb))
+    c.coverage["distinct_nontrivial"] = len(set(lists)) + len(set(hb)) + len(set(fb)) + len(gb)
     c.assumptions += ["worlds are the six renderings of spec/C01.tla's configuration (every feature type, uniform models); "
                       "other model types enter through C05/C13", "release build (-O2 -DNDEBUG)"]
     return c.finish()
